@@ -118,6 +118,8 @@ func (env *Env) resolveType(s string) (types.Type, *Sort) {
 		return nil, sortInt
 	case "iface", "error":
 		return types.Universe.Lookup("error").Type(), sortIface
+	case "interface{}", "any":
+		return types.NewInterfaceType(nil, nil), sortIface
 	case "bigint":
 		return nil, sortBig
 	}
@@ -286,7 +288,8 @@ func (env *Env) evalIdent(name string) SV {
 		return *env.this
 	}
 	if g, ok := vc.eng.db.Ghosts[name]; ok && !g.Field {
-		return SV{vc.ghostVar(env.st, g), nil}
+		gt, _ := env.inPkg(g.Pkg).resolveType(g.Type)
+		return SV{vc.ghostVar(env.st, g), gt}
 	}
 	if obj := env.lookupQualified(name); obj != nil {
 		return env.objValue(obj)
@@ -560,7 +563,7 @@ func (env *Env) evalIndex(x *EIndex) SV {
 		case *types.Map:
 			ks, es := vc.eng.st.SortOf(u.Key()), vc.eng.st.SortOf(u.Elem())
 			mh := vc.mapHeapsOf(env.st, ks, es)
-			present := Select(Select(mh.p, base.V, vc.eng.st.ArrayOf(ks, sortBool)), idx.V, sortBool)
+			present := And(Not(Eq(base.V, IntLit(0))), Select(Select(mh.p, base.V, vc.eng.st.ArrayOf(ks, sortBool)), idx.V, sortBool))
 			val := Select(Select(mh.v, base.V, vc.eng.st.ArrayOf(ks, es)), idx.V, es)
 			return SV{Ite(present, val, vc.eng.st.Zero(es)), u.Elem()}
 		case *types.Slice:
@@ -607,7 +610,7 @@ func (env *Env) evalCall(x *ECall) SV {
 		case KInt:
 			if m, ok := types.Unalias(v.T).Underlying().(*types.Map); ok {
 				mh := vc.mapHeapsOf(env.st, vc.eng.st.SortOf(m.Key()), vc.eng.st.SortOf(m.Elem()))
-				return SV{Select(mh.n, v.V, sortInt), ti}
+				return SV{Ite(Eq(v.V, IntLit(0)), IntLit(0), Select(mh.n, v.V, sortInt)), ti}
 			}
 		}
 		specFail("len of %s", v.V.Sort.Name)
@@ -618,7 +621,7 @@ func (env *Env) evalCall(x *ECall) SV {
 		if mt, ok := types.Unalias(m.T).Underlying().(*types.Map); m.T != nil && ok {
 			ks, es := vc.eng.st.SortOf(mt.Key()), vc.eng.st.SortOf(mt.Elem())
 			mh := vc.mapHeapsOf(env.st, ks, es)
-			return SV{Select(Select(mh.p, m.V, vc.eng.st.ArrayOf(ks, sortBool)), k.V, sortBool), tb}
+			return SV{And(Not(Eq(m.V, IntLit(0))), Select(Select(mh.p, m.V, vc.eng.st.ArrayOf(ks, sortBool)), k.V, sortBool)), tb}
 		}
 		if m.V.Sort.Kind == KArray && m.V.Sort.Elem.Kind == KBool {
 			return SV{Select(m.V, k.V, sortBool), tb}
